@@ -100,6 +100,57 @@ func locEntriesCoq(ls []cmpb.Loc) string {
 	return "[" + strings.Join(parts, "; ") + "]"
 }
 
+// runFull: every text compiled ALONE as the package foo.v1 (file foo/v1/a.j5s); CFull cases (see CmpbWalkCorr.v).
+func runFull(cfg *vh.Config, res *vh.Result, caseNo *int, texts []string, how []string) (terms []string, recs []vh.CaseRec) {
+	type fullObs struct {
+		C compiled
+	}
+	var idx []int
+	for i, src := range texts {
+		if len(src) <= 2500 && !strings.HasPrefix(how[i], "j5sgen") {
+			idx = append(idx, i)
+		}
+	}
+	obs := parallel(len(idx), "full", *caseNo,
+		func(k int) any { return map[string]any{"how": how[idx[k]], "source": texts[idx[k]]} },
+		func(k int) fullObs {
+			return fullObs{C: compileOnce(map[string]string{mainFile: texts[idx[k]]}, "foo.v1")}
+		})
+	for k, i := range idx {
+		c := obs[k].C
+		in := map[string]any{"how": how[i], "files": map[string]string{mainFile: texts[i]}, "call": "CompilePackage of the file alone"}
+		res.Count("full")
+		if c.TimedOut || c.Panic != nil {
+			*caseNo++
+			continue // judged by the other streams
+		}
+		accepted := c.Err == nil
+		conv := false
+		var sp []span4
+		if c.Err != nil {
+			conv = strings.Contains(c.Err.Error(), "convertJ5File")
+			if conv {
+				var all bool
+				sp, all = errSpans(cmpb.Positions(c.Err))
+				if !all {
+					conv = false
+				}
+			}
+		}
+		if accepted {
+			res.Count("full_accepted")
+		} else if conv {
+			res.Count("full_conversion_error")
+		} else {
+			res.Count("full_other_error")
+		}
+		terms = append(terms, fmt.Sprintf("CFull %s %s %s %s", vh.BytesTerm(texts[i]), b(accepted), b(conv), spansCoq(sp)))
+		recs = append(recs, vh.CaseRec{Case: *caseNo, Stream: "full", Input: in, Impl: map[string]any{"accepted": accepted, "conversion_stage": conv, "positions": sp}})
+		*caseNo++
+	}
+	return terms, recs
+}
+
 // runWalk emits one CWalk case per text (type cwalk_case).
 func runWalk(cfg *vh.Config, res *vh.Result, caseNo *int, texts []string, how []string) (terms []string, recs []vh.CaseRec) {
 	obs := parallel(len(texts), "walk", *caseNo,
